@@ -311,6 +311,28 @@ def gen(ctx):
         cc = mk_case(rng, keys, vals, ops, 16384, 25, "cleanup-then-restart-%d" % n)
         cc["cfg"]["peer"] = case_peer.hex()
         cases.append(cc)
+    # LARGE records (300 KiB .. 1 MiB+) torn at block / segment aligned prefixes: every 2^k and 2^k+16 (k = 10..20),
+    # multiples of 256 KiB and of 256 KiB + 16 (an AEAD that works in independent segments must still reject a
+    # file cut at a segment boundary), and random points; thorough: every 4 KiB aligned prefix of one record.
+    # Oracle only (no model term: million-element lists are too slow inside coqc).
+    big_keys = gen_keys(rng, 2, False)
+    for size in ([307200, 1048576 + 17] if quick else [307200, 614400, 1048576 + 17, 2 * 1048576 + 5]):
+        big = bytes([0x91, 1]) + base.pat(rng.getrandbits(8), size - 2)
+        small = bytes([0x91, 1]) + b"small"
+        points = set()
+        for kk in range(10, 21):
+            points |= {2 ** kk, 2 ** kk + 16}
+        for j in range(1, 9):
+            points |= {j * 262144, j * (262144 + 16), j * (262144 + 16) - 16}
+        points |= {rng.randrange(1, size + 16) for _ in range(4)}
+        if not quick and size == 1048576 + 17:
+            points |= set(range(4096, size + 16, 4096))
+        for m in sorted(p_ for p_ in points if p_ < size + 16):
+            pre_put = [{"op": "put", "k": 0, "v": 1, "t": 0}, {"op": "settle"}] if rng.random() < 0.3 else []
+            ops = pre_put + [{"op": "put", "k": 0, "v": 0, "t": 0}, {"op": "crash", "tears": [[0, m]]},
+                             {"op": "get", "k": 0}, {"op": "settle"}, {"op": "crash", "tears": []}]
+            cc = mk_case(rng, big_keys, [big, small], ops, 16384, 25, "large-torn")
+            cases.append(cc)
     # every byte prefix of one pending write (overwrite of a completed record), a second file complete
     for rep in range(1 if quick else 12):
         keys = gen_keys(rng, 3, False)
